@@ -80,6 +80,8 @@ def gen(t, sform, shape, forms, lens, domain, tier):
     R, C = shape
     N = R * C
     dims = (N,) if len(forms) == 1 else (R, C)
+    if domain == "reject" and not any(f in "SV" or (f == "B" and n != d) for f, d, n in zip(forms, dims, lens)):
+        return None          # `:` and masks of exactly the dimension's length always address existing elements
     fxn = DISPATCH_1D[forms[0]] if len(forms) == 1 else DISPATCH_2D[forms]
     b = [sym_array(t, "src", N)]
     b.append("let sc = Ref::new(%s);" % mk_form(sform, t, "src", shape))
@@ -190,6 +192,7 @@ def plan(tier, seed):
     for sform, shape in (("RD", (1, 3)), ("MD", (2, 2))):
         hs.append(gen("u8", sform, shape, ("S",), (0,), "accept", "thorough"))
         hs.append(gen("u8", sform, shape, ("V",), (2,), "accept", "thorough"))
+    hs = [h for h in hs if h is not None]
     src = read_repo("src/interpreter/src/stdlib/access/matrix.rs")
     prelude, extracted = "", {}
     for fx in sorted(set(list(DISPATCH_1D.values()) + list(DISPATCH_2D.values()))):
